@@ -46,8 +46,9 @@ package cache
 //@ props C01 C03 C06 C09 C16
 //@ func Cache.Get
 //@   assigns cache.MemoryCache cache.FileCache cache.EntryMetadata cache.memoryInternalEntry map_map_cache.CacheKey atomic.Int64 ghost:mapsum ghost:fsinode ghost:jsize ghost:jexp ghost:handleinode
-//@   ensures [C09] result1 == nil ==> result0 != nil && allocated(result0) && result0.Metadata != nil && allocated(result0.Metadata) && result0.Data != nil
+//@   ensures [C09] result1 == nil ==> result0 != nil && allocated(result0) && result0.Metadata != nil && allocated(result0.Metadata) && result0.Data != nil && result0.Metadata.Size >= 0
 //@   ensures [C09] result1 != nil ==> result0 == nil
+//@   ensures [C05] result1 == nil ==> !old(allocated(result0))
 //@   ensures [C03] result1 == nil && result0.Stale ==> result0.Metadata.Expires < now
 //@   ensures [C03] result1 == nil && !result0.Stale ==> result0.Metadata.Expires >= old(now)
 
@@ -56,12 +57,13 @@ package cache
 //@   assigns cache.MemoryCache cache.FileCache cache.EntryMetadata cache.memoryInternalEntry map_map_cache.CacheKey atomic.Int64 ghost:mapsum ghost:fsinode ghost:jsize ghost:jexp ghost:handleinode ghost:isize ghost:icontent
 //@   ensures [C09] result1 == nil ==> result0 != nil && allocated(result0) && result0.Metadata != nil && allocated(result0.Metadata) && result0.Data != nil
 //@   ensures [C09] result1 != nil ==> result0 == nil
-//@   ensures [C06] result1 == nil ==> result0.Metadata.Expires == expires && result0.Metadata.Size == old(readlen(data)) && !result0.Stale
+//@   ensures [C06] result1 == nil ==> result0.Metadata.Expires == expires && result0.Metadata.Size == old(readlen(data)) && result0.Metadata.Size >= 0 && !result0.Stale
+//@   ensures [C05] result1 == nil ==> !old(allocated(result0))
 
 //@ props C06 C09 C16
 //@ func Cache.UpdateMetadata
 //@   ghost callback modifier assigns EntryMetadata_MetadataT_.Expires
-//@   assigns cache.MemoryCache cache.FileCache cache.EntryMetadata cache.memoryInternalEntry map_map_cache.CacheKey atomic.Int64 ghost:mapsum ghost:fsinode ghost:jsize ghost:jexp
+//@   assigns cache.MemoryCache cache.FileCache cache.EntryMetadata cache.memoryInternalEntry map_map_cache.CacheKey atomic.Int64 ghost:mapsum ghost:fsinode ghost:jsize ghost:jexp ghost:callcount
 //@   requires modifier != nil
 
 // ---------------------------------------------------------------- memory backend
@@ -152,6 +154,7 @@ package cache
 //@   ensures [C01] result1 == nil ==> in(c.entries, key) && sid(c.entries[key].data) == old(readall(data)) && c.entries[key].meta.Size == old(readlen(data)) && c.entries[key].meta.Expires == expires && result0 != nil && result0.Metadata == c.entries[key].meta
 //@   ensures [C01] result1 == nil ==> readercontent(asptr(result0.Data, "memoryReadSeekCloser").Reader) == sid(c.entries[key].data)
 //@   ensures [C01] result1 != nil && !evictIfFull ==> (forall k key :: in(c.entries, k) == old(in(c.entries, k)) && c.entries[k] == old(c.entries[k]))
+//@   ensures [C05] result1 == nil ==> !old(allocated(result0))
 //@   ensures [C09] result1 == nil ==> allocated(result0) && result0.Metadata != nil && allocated(result0.Metadata) && result0.Data != nil && result0.Metadata.Size == old(readlen(data)) && !result0.Stale
 //@   ensures [C09] result1 != nil ==> result0 == nil
 //@   assigns cache.MemoryCache cache.FileCache cache.EntryMetadata cache.memoryInternalEntry map_map_cache.CacheKey atomic.Int64 ghost:mapsum ghost:fsinode ghost:jsize ghost:jexp ghost:handleinode ghost:isize ghost:icontent
